@@ -164,6 +164,16 @@ def mutants_of(src):
                 return False
             if n.value is None:
                 emit("delete early return", n, ap)
+        if EXTRA and isinstance(n, (ast.Assign, ast.AugAssign)) and not isinstance(parents.get(id(n)), (ast.Module, ast.ClassDef)):
+            def ap(x, t):
+                for p_ in ast.walk(t):
+                    for fld in ("body", "orelse", "finalbody"):
+                        b = getattr(p_, fld, None)
+                        if isinstance(b, list) and x in b:
+                            b[b.index(x)] = ast.Pass()
+                            return
+                return False
+            emit("delete assign: %s" % ast.unparse(n)[:70], n, ap)
         if EXTRA and isinstance(n, ast.Attribute) and isinstance(n.ctx, ast.Load) and n.attr in EVENT_FIELDS and isinstance(n.value, ast.Name):
             for rep in EVENT_FIELDS[n.attr]:
                 def ap(x, t, rep=rep):
@@ -265,7 +275,7 @@ if __name__ == "__main__":
         if mx:
             ms = ms[:mx]
         if os.environ.get("MUTGEN_EXTRA") == "only":
-            ms = [x for x in ms if x[0].startswith(("field ", "name ", "swap stmts"))]
+            ms = [x for x in ms if x[0].startswith(tuple(os.environ.get("MUTGEN_ONLY", "field ,name ,swap stmts,delete assign").split(",")))]
         jobs += [(rel, d, ln, new) for d, ln, new in ms]
     print("%d mutants over %d files" % (len(jobs), len(files)), file=sys.stderr)
     with ProcessPoolExecutor(max_workers=16) as ex:
